@@ -7,7 +7,7 @@ import reactivex
 from reactivex import operators as ops
 
 from vlib.core import FAIL, OK, SKIP, Check, HarnessError
-from vlib.hoc import POLICIES, TSource, all_subs, compare_union, exact_trace, draw_outer, inner_specs, max_overlap, simulate
+from vlib.hoc import POLICIES, TSource, all_subs, compare_union, exact_trace, draw_outer, inner_specs, max_overlap, saturated_case, simulate
 from vlib.lab import Lab
 
 PROPERTY_ID = "C11"
@@ -18,7 +18,9 @@ RULE = (
     "hot, 0-5 (thorough 0-7) elements selecting inners, possibly the same inner several times, terminal completion / error / none); "
     "forms merge_all, merge(max_concurrent=1..4), flat_map (mapper and constant-observable forms), flat_map_indexed, "
     "concat_map, and the n-ary reactivex.merge(...) / ops.merge(...) forms (outer = the argument list); subscribed at a "
-    "generated tick on the virtual scheduler (n-ary forms also through the default trampoline). Oracle: an independent "
+    "generated tick on the virtual scheduler (n-ary forms also through the default trampoline); half of the 'limited' "
+    "cases use a saturation shape (slow inners fill max_concurrent, queued inners that complete synchronously inside "
+    "their own subscribe, outer completing early). Oracle: an independent "
     "discrete-event reference (plain Python, own priority queue) of 'merge with optional concurrency limit and FIFO "
     "queue' gives the expected elements with ticks, terminal and inner subscription instants; the real trace must contain "
     "per instant exactly the expected multiset with each inner's own order kept, the expected terminal kind at the "
@@ -166,6 +168,10 @@ def _run(case):
         cls.append("overlapping-inners")
     if queued:
         cls.append("queued-inner")
+    if getattr(op, "sync_dequeue", 0):
+        cls.append("dequeued-inner-completes-in-subscribe")
+    if getattr(op, "sync_dequeue_after_outer_done", 0):
+        cls.append("dequeued-inner-completes-in-subscribe:outer-done+queue-empty")
     if maxc is not None:
         cls.append(f"maxc={maxc}")
         if max_overlap(all_subs(inners)) == maxc:
@@ -216,12 +222,22 @@ def _cases(draw, forms, big=False):
     return c
 
 
+@st.composite
+def _saturated(draw):
+    sc = draw(saturated_case())
+    form = draw(st.sampled_from(["merge_mc", "concat_map", "merge_mc"]))
+    c = {"form": form, "inners": sc["inners"], "t0": draw(st.integers(0, 3)), "outer": sc["outer"]}
+    if form == "merge_mc":
+        c["maxc"] = sc["maxc"]
+    return c
+
+
 def checks(tier):
     ex = lambda q: {"quick": q, "thorough": 16 * 10 * q}  # noqa: E731
     sh = {"quick": 4, "thorough": 16}
     big = tier == "thorough"
     return [
         Check("unbounded", _run, strategy=_cases(["merge_all", "flat_map", "flat_map_indexed", "flat_map_const", "merge_all", "flat_map"], big), examples=ex(1600), shards=sh),
-        Check("limited", _run, strategy=_cases(["merge_mc", "merge_mc", "concat_map"], big), examples=ex(1600), shards=sh),
+        Check("limited", _run, strategy=st.one_of(_cases(["merge_mc", "merge_mc", "concat_map"], big), _saturated()), examples=ex(2000), shards=sh),
         Check("nary", _run, strategy=_cases(FORMS_NARY, big), examples=ex(800), shards=sh),
     ]
